@@ -330,6 +330,20 @@ def family_t(tier: str) -> Iterator[dict]:
     yield {"fam": "T", "lay": "linear-core-wrap", "L": 360, "circ": 0, "seed": 1,
            "genes": [_gene("g0", [[0, 60]]), _gene("g1", [[117, 177]]), _gene("g2", [[270, 306]], -1)],
            "rules": [rule(["g0"], 90, 50, 0), rule(["g1", "g2"], 45, 50, 1)], "subs": [], "misc": []}
+    # areas chained around the whole circle: one region that covers every base and starts inside the record
+    yield make("CI", with_products([{"anchors": ["g1"], "nb": 45, "cut": 10}, {"anchors": ["g3", "g4"], "nb": 45, "cut": 10},
+                                    {"anchors": ["g5", "g0"], "nb": 45, "cut": 10}]), fam="T")
+    # origin-spanning region whose areas sort differently once it is linearised
+    yield make("CI", with_products([{"anchors": ["g0"], "nb": 15, "cut": 20}, {"anchors": ["g3", "g4"], "nb": 0, "cut": 15},
+                                    {"anchors": ["g5", "g0"], "nb": 45, "cut": 10}]), fam="T")
+    # a region that is exactly one two-exon gene
+    yield {"fam": "T", "lay": "exons-span-region", "L": 360, "circ": 0, "seed": 1,
+           "genes": [_gene("g0", [[30, 60]]), _gene("g1", [[126, 144], [153, 165]], a=["D"]), _gene("g2", [[240, 270]], -1)],
+           "rules": [rule(["g1"], 0, 15, 0)], "subs": [], "misc": []}
+    # a partial gene with codon_start at the record start, region starting at its shifted start
+    yield {"fam": "T", "lay": "frameshifted-gene-cut", "L": 360, "circ": 0, "seed": 1,
+           "genes": [_gene("g0", [[0, 56]], cs=2, fz=1, a=["D"]), _gene("g1", [[60, 90]], -1), _gene("g2", [[240, 270]])],
+           "rules": [dict(rule(["g0", "g1"], 0, 5, 0), side=1, prod="side0")], "subs": [], "misc": []}
 
 
 FAMILIES = {"T": family_t, "A1": family_a1, "A2": family_a2, "A3": family_a3, "AS": family_as, "AX": family_ax,
